@@ -15,11 +15,18 @@ CHECKS = {
 		"note": "Bounds: see evidence (per harness). Assumes: u32::pow(2,z) = 1<<z model, std::fmt::format and Backtrace::capture stubbed. Trusted: Kani codegen, CBMC, CaDiCaL.",
 	},
 }
+CHECKS["C20"] = {
+	"text": "Inductive step decided by CBMC on the real add/get/get_or_set/cleanup bodies from an ARBITRARY cache state satisfying a representation invariant "
+		"(plus the base case with_maximum_size): capacity, transparency, get-or-compute and just-used-survives hold after histories of any length, for capacities 1..3 (quick) / 1..4 (thorough). "
+		"An inductive step is the only way a bounded solver query covers unbounded histories.",
+	"note": "HashMap replaced by an association-list model (hashing outside the claim); entry count and capacity concrete per instance (len <= cap <= 4), keys/values/stamps symbolic; capacities > 4 outside the bound.",
+	"technique": "inductive invariant step, bounded model checking of the real Rust code (Kani/CBMC + CaDiCaL)",
+}
 NOT_APPLICABLE = {
 	"C12": "interrupted writes: needs whole-function runs of the async writers followed by readers on a buffer that depends on a symbolic crash point, and rests on gzip/brotli rejecting truncated streams (loops over input inside the codecs) - out of reach of CBMC (DESIGN.md section 5)",
 	"C14": "completion orders of tokio::spawn + buffer_unordered: Kani has no threads or tokio runtime; an SMT model of buffer_unordered would verify the model, not the repository (DESIGN.md section 5)",
 	"C18": "parse_vpl is a recursive nom combinator parser over heap strings: no CBMC verdict on 4 symbolic bytes in 25 min / 8 GB; the shortest interesting texts need 5-8 bytes (DESIGN.md section 5)",
 }
 PENDING = "check under construction in this session (harness set not yet registered)"
-for p in ["C01", "C02", "C03", "C04", "C05", "C06", "C07", "C08", "C09", "C10", "C11", "C13", "C16", "C17", "C19", "C20"]:
+for p in ["C01", "C02", "C03", "C04", "C05", "C06", "C07", "C08", "C09", "C10", "C11", "C13", "C16", "C17", "C19"]:
 	NOT_APPLICABLE.setdefault(p, PENDING)
